@@ -85,3 +85,39 @@ pub(crate) fn trace(local_port: u16, ev: impl FnOnce() -> Ev) {
         }
     })
 }
+
+// ---- gates: named points at which a task of the endpoint with a given local port can be held ----
+
+static GATES: Mutex<Option<HashMap<(u16, &'static str), std::sync::Arc<tokio::sync::Notify>>>> =
+    Mutex::new(None);
+
+/// Arm the gate `name` of the endpoint with this local port: the next task that reaches it
+/// waits until `gate_release`.
+pub fn gate_arm(local_port: u16, name: &'static str) {
+    GATES
+        .lock()
+        .get_or_insert_with(HashMap::new)
+        .insert((local_port, name), std::sync::Arc::new(tokio::sync::Notify::new()));
+}
+
+/// Let the task held at the gate continue (and disarm the gate).
+pub fn gate_release(local_port: u16, name: &'static str) {
+    if let Some(n) = GATES
+        .lock()
+        .get_or_insert_with(HashMap::new)
+        .remove(&(local_port, name))
+    {
+        n.notify_one();
+    }
+}
+
+pub(crate) async fn gate(local_port: u16, name: &'static str) {
+    let n = GATES
+        .lock()
+        .get_or_insert_with(HashMap::new)
+        .get(&(local_port, name))
+        .cloned();
+    if let Some(n) = n {
+        n.notified().await;
+    }
+}
